@@ -49,6 +49,14 @@ register("C18",
          "Trusted: Coq kernel; Model/Refresh.v is hand-written (modelled-not-verified, one dimension + sum + count standing for any decomposable rollup) and tied by differential testing; DuckDB and typer CliRunner as drivers; the API source statement (bucket-level watermark predicate) is the harness's choice. No axioms.",
          "Coq induction over operation histories (pointwise bag algebra); correspondence on executed histories incl. the CLI", "DESIGN.md section 6/C18")
 
+register("C01",
+         "Machine-checked Coq theorem C01_rows: for every single-model definition, query and table of ANY size the relational plan the generator emits (CTE of dimension expressions and raw measure columns with CASE-WHEN metric filters, "
+         "COUNT->1, COUNT DISTINCT->key, outer aggregation with GROUP BY positions, ungrouped branch, ORDER BY/OFFSET/LIMIT) returns exactly the rows of the reference semantics (one row per distinct dimension tuple among the filtered rows; "
+         "each metric its aggregation over exactly the group's rows that pass its own filters, SQL NULL semantics; uninterpreted aggregates receive exactly that bag). "
+         "The plan model is hand-written and tied to generator.py + DuckDB by executing random definitions/tables/queries against both; the same cases are compared with the reference semantics (property oracle).",
+         "Trusted: Coq kernel; Model/Sem.v + Model/Single.v hand-written (modelled-not-verified), tied by differential testing; DuckDB evaluates expressions/aggregates; hypothesis composite_cd_free (count_distinct-without-sql on a composite key is known finding C01-K2). No axioms.",
+         "Coq proof plan = reference semantics (induction over rows); model/implementation correspondence on generated cases via vm_compute", "DESIGN.md section 6/C01")
+
 PENDING = "check not built yet in this revision (see DESIGN.md section 10 build order)"
 
 
